@@ -78,6 +78,11 @@ Step ==
        IF e.val # opcur[t].val THEN Reject(e, "reset! installed something else than its argument")
        ELSE cell' = [cell EXCEPT ![a] = e.val] /\ lastset' = [lastset EXCEPT ![t] = e.val]
             /\ l' = l + 1 /\ UNCHANGED <<stack, lastread, opcur, skip, nscen>>
+     ELSE IF e.ev = "final" THEN
+       \* (vector-valued atoms, every swap! conj'ing an element of its own): all elements of the final value distinct
+       IF e.val # e.n THEN Reject(e, "lost update: the final vector holds " \o ToString(e.n) \o " elements, only " \o ToString(e.val) \o " distinct")
+       ELSE IF e.n # cell[a] THEN Reject(e, "the final vector does not have the length the history gives")
+       ELSE l' = l + 1 /\ UNCHANGED <<cell, stack, lastread, lastset, opcur, skip, nscen>>
      ELSE IF e.ev = "res" THEN
        IF e.op = "deref" /\ e.val # lastread[t] THEN Reject(e, "deref returned something else than it read")
        ELSE IF e.op = "reset" /\ e.val # opcur[t].val THEN Reject(e, "reset! returned something else than its argument")
